@@ -460,13 +460,122 @@ fn normalised(m: &Model) -> Model {
 /// every field, by value: the Debug text lists every field and prints each f32 with its shortest
 /// round-tripping decimal, so equal texts <=> equal field values (independent of serde)
 pub fn same_model(a: &Model, b: &Model) -> Result<(), String> {
-    let (da, db) = (format!("{:?}", normalised(a)), format!("{:?}", normalised(b)));
+    // -0.0 and 0.0 are the same value (omit rules compare with ==): every negative zero is read as 0.0
+    let (da, db) = (no_negative_zero(&format!("{:?}", normalised(a))), no_negative_zero(&format!("{:?}", normalised(b))));
     if da == db {
         return Ok(());
     }
     let i = da.bytes().zip(db.bytes()).position(|(x, y)| x != y).unwrap_or(da.len().min(db.len()));
     let lo = i.saturating_sub(60);
     Err(format!("...{} | ...{}", &da[lo..(i + 60).min(da.len())], &db[lo..(i + 60).min(db.len())]))
+}
+
+fn no_negative_zero(d: &str) -> String {
+    let b = d.as_bytes();
+    let mut out: Vec<u8> = Vec::with_capacity(b.len());
+    let mut i = 0;
+    while i < b.len() {
+        if b[i] == b'-' && b[i..].starts_with(b"-0.0") && !b.get(i + 4).map_or(false, |c| c.is_ascii_digit() || *c == b'e') && !(i > 0 && b[i - 1].is_ascii_alphanumeric()) {
+            out.extend_from_slice(b"0.0");
+            i += 4;
+        } else {
+            out.push(b[i]);
+            i += 1;
+        }
+    }
+    String::from_utf8_lossy(&out).to_string()
+}
+
+// ---- sentinel sweep: any leaf of the JSON tree set to a value that omit rules typically test for
+
+const SENTINELS: [f64; 10] = [0.0, 1.0, -1.0, 0.5, 50.0, 100.0, 0.01, 2.0, 90.0, 180.0];
+
+fn leaf_paths(v: &Value, cur: String, out: &mut Vec<String>) {
+    match v {
+        Value::Object(o) => {
+            for (k, c) in o {
+                leaf_paths(c, format!("{}/{}", cur, k.replace('~', "~0").replace('/', "~1")), out);
+            }
+        }
+        Value::Array(a) => {
+            if a.is_empty() {
+                out.push(cur.clone());
+            }
+            for (i, c) in a.iter().enumerate() {
+                leaf_paths(c, format!("{}/{}", cur, i), out);
+            }
+        }
+        _ => out.push(cur),
+    }
+}
+
+fn sentinel_case() -> BoxedStrategy<(Plan, Vec<(u32, u8)>)> {
+    (every_field_plan(), proptest::collection::vec((any::<u32>(), any::<u8>()), 1..=4)).boxed()
+}
+
+/// A generated model is serialised, 1-4 leaves of the JSON tree are overwritten (numbers by a sentinel such
+/// as 0, 1, 50; flags flipped; strings emptied; arrays emptied), and whatever still loads as a model must
+/// survive its own round trip field by field and serialise twice to the same text.
+fn check_sentinels(h: &CaseH, c: &(Plan, Vec<(u32, u8)>)) -> Verdict {
+    let m0 = model::build(&c.0);
+    let mut v = match serde_json::to_value(&m0) {
+        Ok(v) => v,
+        Err(_) => return Verdict::Pass,
+    };
+    let mut paths = vec![];
+    leaf_paths(&v, String::new(), &mut paths);
+    if paths.is_empty() {
+        return Verdict::Pass;
+    }
+    let mut touched = vec![];
+    for (pi, si) in &c.1 {
+        let p = &paths[(*pi as usize) % paths.len()];
+        if let Some(node) = v.pointer_mut(p) {
+            match node {
+                Value::Number(n) => {
+                    let x = SENTINELS[(*si as usize) % SENTINELS.len()];
+                    *node = if n.is_f64() { json!(x) } else { json!(x.abs() as u64) };
+                }
+                Value::Bool(b) => *b = !*b,
+                Value::String(s) => {
+                    if s.len() != 36 {
+                        s.clear();
+                    }
+                }
+                Value::Array(a) => a.clear(),
+                _ => {}
+            }
+            // the key the leaf belongs to (arrays: the key of the array)
+            let key = p.rsplit('/').find(|k| k.parse::<usize>().is_err()).unwrap_or("").to_string();
+            touched.push(key);
+        }
+    }
+    let m: Model = match serde_json::from_value(v) {
+        Ok(m) => m,
+        Err(_) => {
+            h.class("rejected");
+            return Verdict::Pass;
+        }
+    };
+    h.class("loaded");
+    for k in &touched {
+        h.class(&format!("field/{}", k));
+    }
+    let j1 = match m.as_json() {
+        Ok(j) => j,
+        Err(e) => vfail!("C04:sentinel:serialise-error", "a loaded model does not serialise: {}", e),
+    };
+    let m2 = match Model::from_json(&j1) {
+        Ok(m) => m,
+        Err(e) => vfail!("C04:sentinel:load-error", "serialised model does not load back after setting {:?}: {}", touched, e),
+    };
+    if let Err(d) = same_model(&m, &m2) {
+        vfail!("C04:sentinel:roundtrip-differs", "after setting {:?} to a sentinel value the model does not survive its round trip: {}", touched, d);
+    }
+    let j2 = m2.as_json().unwrap_or_default();
+    vensure!(j1 == j2, "C04:sentinel:not-idempotent", "after setting {:?}: second serialisation differs from the first", touched);
+    h.nontrivial(fp(&(fp(&c.0), &c.1)));
+    Verdict::Pass
 }
 
 fn every_field_plan() -> BoxedStrategy<Plan> {
@@ -635,12 +744,14 @@ fn check_shipped_file(h: &CaseH, path: &String) -> Verdict {
 
 pub fn run_c04(args: &Args) -> ! {
     let ctx = Ctx::new("C04", "exploration", args);
-    ctx.rule("generated models (closed/open/minimal plans: every optional present and absent, every defaulted field at and away from its default, both material variants, overrides, empty and non-empty names and collections), models with an `extra` list and arbitrary finite f32 bit patterns, the shipped model files; oracles: (1) load(serialise(m)) equals m field by field (Debug text of the normalised model, independent of serde), (2) second serialisation byte-identical, (3) serialised JSON equals an independently written encoder of the documented wire format (names, types, omit rules), (4) that encoder's text with defaults omitted loads to m, (5) shipped files: JSON value unchanged by load+serialise (numbers compared as f32). Non-trivial: >= 10 default/omit pairs exercised on both sides in one model.");
+    ctx.rule("generated models (closed/open/minimal plans: every optional present and absent, every defaulted field at and away from its default, both material variants, overrides, empty and non-empty names and collections), models with an `extra` list and arbitrary finite f32 bit patterns, generated models with 1-4 leaves of their JSON tree overwritten by sentinel values (0, 1, -1, 0.5, 50, 100 ...; flags flipped; strings and arrays emptied: whatever an omit rule might test for, on every field), the shipped model files; oracles: (1) load(serialise(m)) equals m field by field (Debug text of the normalised model, independent of serde), (2) second serialisation byte-identical, (3) serialised JSON equals an independently written encoder of the documented wire format (names, types, omit rules), (4) that encoder's text with defaults omitted loads to m, (5) shipped files: JSON value unchanged by load+serialise (numbers compared as f32). Non-trivial: >= 10 default/omit pairs exercised on both sides in one model.");
     ctx.assume("serde_json as a JSON reader/writer; f32 Debug prints a round-tripping decimal");
     ctx.replay_regressions(replay_one);
     ctx.run_enum("shipped_files", &shipped_files(), true, check_shipped_file);
     ctx.run_prop("generated", ctx.tier().pick(40_000, 400_000), every_field_plan, check_json);
     ctx.run_prop("raw_numbers", ctx.tier().pick(20_000, 200_000), raw_numbers_case, check_raw);
+    ctx.run_prop("sentinels", ctx.tier().pick(60_000, 1_000_000), sentinel_case, check_sentinels);
+    ctx.require_class("sentinels/loaded");
     ctx.require_class("generated/names/empty");
     ctx.require_class("generated/names/given");
     if ctx.tier() == crate::engine::Tier::Thorough {
@@ -690,10 +801,11 @@ pub struct WinConsCase {
 
 fn wincons_case() -> BoxedStrategy<WinConsCase> {
     (
-        prop_oneof![1 => Just(0.0f32), 1 => Just(1.0f32), 6 => dec2(0.0, 1.0)],
+        // frame fractions are usually whole percents; one in four has a third decimal
+        prop_oneof![1 => Just(0.0f32), 1 => Just(1.0f32), 6 => dec2(0.0, 1.0), 3 => crate::gen::geom::dec3(0.0, 1.0)],
         prop_oneof![1 => Just(0.0f32), 3 => dec2(0.0, 50.0)],
-        dec2(0.01, 7.0),
-        dec2(0.01, 7.0),
+        prop_oneof![3 => dec2(0.01, 7.0), 1 => crate::gen::geom::dec3(0.01, 7.0)],
+        prop_oneof![3 => dec2(0.01, 7.0), 1 => crate::gen::geom::dec3(0.01, 7.0)],
         dec2(0.05, 0.95),
         prop_oneof![2 => Just(None), 2 => dec2(0.0, 1.0).prop_map(Some), 1 => Just(Some(0.0f32)), 1 => Just(Some(1.0f32)), 2 => (0u32..1000).prop_map(|v| Some(v as f32 / 1000.0))],
         prop_oneof![6 => Just(0u8), 1 => Just(1u8), 1 => Just(2u8)],
@@ -1219,6 +1331,7 @@ pub fn replay_one(ctx: &Ctx, doc: &ReplayDoc) {
     match (doc.property.as_str(), doc.sub.as_str()) {
         ("C04", "generated") => replay_case::<Plan>(ctx, &doc.sub, &doc.case, check_json),
         ("C04", "raw_numbers") => replay_case::<(Plan, Vec<u32>)>(ctx, &doc.sub, &doc.case, check_raw),
+        ("C04", "sentinels") => replay_case::<(Plan, Vec<(u32, u8)>)>(ctx, &doc.sub, &doc.case, check_sentinels),
         ("C04", "shipped_files") => replay_case::<String>(ctx, &doc.sub, &doc.case, check_shipped_file),
         ("C07", "wincons") => replay_case::<WinConsCase>(ctx, &doc.sub, &doc.case, check_wincons),
         ("C15", "generated") => replay_case::<(Plan, bool)>(ctx, &doc.sub, &doc.case, check_checker),
